@@ -1,4 +1,4 @@
-import EvoModel.Model.Rpe
+import EvoModel.Model.Pipeline
 namespace Evo.Drv.C02
 open Evo
 
@@ -6,6 +6,8 @@ open Evo
   `rpe rel 2k i1 j1 … n ref-poses… n est-poses…` → `OK m id… | core…` | `E_METRICS:len` | `E_GEOMETRY` | `E_INDEX`
        (core tokens: `S:r`, `A:c:s2:rad|deg`, `D:a:b` = |√a−√b|, `R:a:b` = |√a−√b|/√a·100)
   `margin 2k pairs… n ref… n est…`  → smallest distance of an `is_so3` guard quantity from its threshold
+  `run <opts> <params> <ref traj> <est traj>` → the whole pipeline on rational trajectories (Model/Pipeline.lean):
+       `OK unit | ids… | stamps | cores | margin` or `E:<exception class>`
   `relinfo <cli choice>`              → `PoseRelation value|APE unit|RPE unit` (table tie)
   `plan <15 common tokens> delta unit tol allPairs fromRef` → `step | step | …` or `E_FILTER` -/
 def handle (op : String) (args : List String) : Option String :=
@@ -26,6 +28,18 @@ def handle (op : String) (args : List String) : Option String :=
   | "plan", rest => do
       let o ← readRpeOpts rest
       some (showPlan (rpePlan o))
+  | "run", rest => do
+      let (c, rest) ← readCommonOpts rest
+      match rest with
+      | d :: u :: t :: a :: f :: rest => do
+          let o ← readRpeOpts' c [d, u, t, a, f]
+          let (P, rest) ← Pipeline.readParams rest
+          let (ref, rest) ← Pipeline.readTraj rest
+          let (est, _) ← Pipeline.readTraj rest
+          let n := if o.pairsFromReference then P.pairs.steps.length + 1 else P.pairs.steps.length + 1
+          some (Pipeline.showRpeRun (Pipeline.rpeRun o P ref est) ++ " | "
+            ++ showRat (Pipeline.minR (Pipeline.selectMargin c P ref est) (Pipeline.pairMargin o P n)))
+      | _ => none
   | "relinfo", [name] => do
       let rel ← PoseRelation.ofString? name
       some (rel.value ++ "|" ++ rel.apeUnit ++ "|" ++ rel.rpeUnit)
